@@ -78,7 +78,7 @@ _add(
         "product: every (m, n) up to the tier's bound with random key sets, result set compared with the reference Cartesian product. distinct "
         "non-trivial = range boundaries + extraction cases with >= 2 non-empty categories + union pairs + product shapes"
     ),
-    deciding={"any": {"classified_integers": 3001, "extract_cases": 300, "union_cases": 50, "product_shapes": 20, "extract_unknown_package": 1, "extract_out_of_range": 1}},
+    deciding={"any": {"classified_integers": 3001, "extract_cases": 300, "union_cases": 50, "union_second_sums": 30, "product_shapes": 20, "extract_unknown_package": 1, "extract_out_of_range": 1}},
     headline=["classified_integers", "extract_cases", "union_cases", "product_shapes", "product_results_checked"],
 )
 
@@ -330,7 +330,7 @@ _add(
         "optional with the reason as hint, faulty pool entries must be offered, nothing may abort. No UNKNOWN is drawn (the documented "
         "NotImplementedError belongs to C13). distinct non-trivial = distinct (faulty tree, assignment, flag) whose fault was actually visited"
     ),
-    deciding={"any": {"trees": 30, "injections": 300, "faults_visited": 200, "fault_at:G": 30, "fault_at:S": 30, "fault_at:F": 30, "fault_at:E": 30}},
+    deciding={"any": {"trees": 30, "injections": 300, "faults_visited": 200, "fault_at:G": 30, "fault_at:S": 30, "fault_at:F": 30, "fault_at:E": 30, "injections_with_shared_lookups": 50}},
     headline=["trees", "injections", "faults_planted", "faults_visited"],
 )
 
@@ -365,6 +365,6 @@ _add(
         "evaluating the round-tripped tree == evaluating the original. distinct non-trivial = distinct round-tripped trees, content evaluation "
         "results and extracts"
     ),
-    deciding={"any": {"trees": 200, "evaluations_compared": 100, "results_with_undetermined_outcome": 20, "round_trips:ahb-result": 50, "round_trips:requirement-result": 100, "round_trips:format-result": 100, "round_trips:content-evaluation-result": 300, "round_trips:categorized-key-extract": 50, "round_trips:evaluated-format-constraint": 200}},
+    deciding={"any": {"trees": 200, "evaluations_compared": 100, "results_with_undetermined_outcome": 20, "round_trips:ahb-result": 50, "round_trips:requirement-result": 100, "round_trips:format-result": 100, "round_trips:content-evaluation-result": 300, "round_trips:categorized-key-extract": 50, "round_trips:evaluated-format-constraint": 200, "concise_dumps_before_round_trip": 100, "unsanitized_extracts": 50}},
     headline=["trees", "evaluations_compared", "results_with_undetermined_outcome"],
 )
